@@ -375,7 +375,7 @@ parser, `parse` never ends in an internal error (IndexError, ValueError from `.i
 theorem parseStory_good (O : PyOracle) (src : Line) : Good (parseStory O src) := by
   have hc := coreLoop_good O
   have hv := validateArgs_good O
-  unfold parseStory determineInitial
+  unfold parseStory parseLines determineInitial
   repeat (first | with_reducible exact hc _ _ _ _ | with_reducible exact hv _ _ | good_step)
 
 theorem parseText_no_internal (O : PyOracle) (src : Line) : ∀ w, parseText O src ≠ .error (.internal w) := by
